@@ -130,12 +130,26 @@ enum Op {
     DeleteBucketHostile,
     HeadBucketHostile,
     PutThenGet,
+    /// legitimate cross-bucket copies: the source (bucket-b) may be *read*; nothing of it - object, metadata side file,
+    /// upload - may change, and nothing of the third bucket may be touched at all
+    CopyAcrossPlainTo,
+    CopyAcrossMetaTo,
+    CopyAcrossFrom,
+    UploadPartCopyAcrossFrom,
 }
 
 const OPS: &[Op] = &[
     Op::Get, Op::Head, Op::Put, Op::Delete, Op::DeleteObjects, Op::CopyFrom, Op::CopyTo, Op::List, Op::CreateMpu, Op::UploadPartCopyFrom, Op::ListPartsHostileId, Op::CompleteHostileId, Op::AbortHostileId, Op::UploadPartHostileId,
     Op::CreateBucketHostile, Op::DeleteBucketHostile, Op::HeadBucketHostile, Op::PutThenGet,
+    Op::CopyAcrossPlainTo, Op::CopyAcrossMetaTo, Op::CopyAcrossFrom, Op::UploadPartCopyAcrossFrom,
 ];
+
+impl Op {
+    /// operations whose copy source lies in bucket-b: reading that bucket is what they are asked to do
+    fn reads_bucket_b(self) -> bool {
+        matches!(self, Op::CopyAcrossPlainTo | Op::CopyAcrossMetaTo | Op::CopyAcrossFrom | Op::UploadPartCopyAcrossFrom)
+    }
+}
 
 /// performs the operation addressed to bucket-a with the hostile string; returns (outcome code, bytes read back)
 fn perform(st: &Store, op: Op, h: &str) -> (String, Vec<u8>) {
@@ -212,6 +226,36 @@ fn perform(st: &Store, op: Op, h: &str) -> (String, Vec<u8>) {
             Op::CreateBucketHostile => code(&fs.create_bucket(req(CreateBucketInput { bucket: h.into(), ..gen_base() }, who)).await),
             Op::DeleteBucketHostile => code(&fs.delete_bucket(req(DeleteBucketInput { bucket: h.into(), ..gen_base() }, who)).await),
             Op::HeadBucketHostile => code(&fs.head_bucket(req(HeadBucketInput { bucket: h.into(), ..gen_base() }, who)).await),
+            Op::CopyAcrossPlainTo | Op::CopyAcrossMetaTo => {
+                // source bucket-b/a (no user metadata) or bucket-b/secret (with), destination bucket-a/<string>
+                let src = if matches!(op, Op::CopyAcrossPlainTo) { "a" } else { "secret" };
+                code(&fs.copy_object(req(CopyObjectInput { bucket: a, key: h.into(), copy_source: CopySource::Bucket { bucket: "bucket-b".into(), key: src.into(), version_id: None }, ..gen_base() }, who)).await)
+            }
+            Op::CopyAcrossFrom => {
+                let r = fs.copy_object(req(CopyObjectInput { bucket: a.clone(), key: "copied".into(), copy_source: CopySource::Bucket { bucket: "bucket-b".into(), key: h.into(), version_id: None }, ..gen_base() }, who)).await;
+                if r.is_ok() {
+                    if let Ok(g) = fs.get_object(req(GetObjectInput { bucket: a, key: "copied".into(), ..gen_base() }, who)).await {
+                        read.extend(format!("{:?}", g.output.metadata).into_bytes());
+                        read.extend(read_body(g.output.body).await.unwrap_or_default());
+                    }
+                }
+                code(&r)
+            }
+            Op::UploadPartCopyAcrossFrom => {
+                let up = fs.create_multipart_upload(req(CreateMultipartUploadInput { bucket: a.clone(), key: "mp".into(), ..gen_base() }, who)).await.unwrap();
+                let id = up.output.upload_id.unwrap();
+                let r = fs.upload_part_copy(req(UploadPartCopyInput { bucket: a.clone(), key: "mp".into(), upload_id: id.clone(), part_number: 1, copy_source: CopySource::Bucket { bucket: "bucket-b".into(), key: h.into(), version_id: None }, ..gen_base() }, who)).await;
+                let c = code(&r);
+                if r.is_ok() {
+                    let done = fs.complete_multipart_upload(req(CompleteMultipartUploadInput { bucket: a.clone(), key: "mp".into(), upload_id: id, multipart_upload: Some(CompletedMultipartUpload { parts: Some(vec![CompletedPart { part_number: Some(1), ..gen_base() }]) }), ..gen_base() }, who)).await;
+                    if done.is_ok() {
+                        if let Ok(g) = fs.get_object(req(GetObjectInput { bucket: a, key: "mp".into(), ..gen_base() }, who)).await {
+                            read.extend(read_body(g.output.body).await.unwrap_or_default());
+                        }
+                    }
+                }
+                c
+            }
             Op::PutThenGet => {
                 let c = code(&fs.put_object(req(PutObjectInput { bucket: a.clone(), key: h.into(), body: Some(blob_of(b"hostile-write", 1)), metadata: Some([("m".to_owned(), "x".to_owned())].into_iter().collect()), ..gen_base() }, who)).await);
                 if let Ok(g) = fs.get_object(req(GetObjectInput { bucket: a.clone(), key: h.into(), ..gen_base() }, who)).await {
@@ -267,7 +311,7 @@ fn judge_changes(op: Op, hostile: &str, changes: &[String], upload_id: &str) -> 
         // root-level bookkeeping: only files derived from the addressed bucket, or from an upload this operation owns
         let own_meta = rel.starts_with(&format!(".bucket-{}.", b64("bucket-a")));
         let own_upload = (rel.starts_with(".upload-") || rel.starts_with(".upload_id-")) && !rel.contains(upload_id);
-        if own_meta || (own_upload && matches!(op, Op::CreateMpu | Op::UploadPartCopyFrom)) {
+        if own_meta || (own_upload && matches!(op, Op::CreateMpu | Op::UploadPartCopyFrom | Op::UploadPartCopyAcrossFrom)) {
             continue;
         }
         if rel.starts_with('.') {
@@ -327,6 +371,9 @@ pub fn run(ctx: &Ctx) -> (Acc, Report) {
                 a.fail(&format!("C17/{kind}/{op:?}"), h.len() as u64, id(), format!("{op:?} addressed to bucket-a with {h:?} ({code}): {detail}"), json!({"input": h, "changes": changes}));
             }
             for (what, m) in [("other-bucket-read", MARK_B), ("other-bucket-read", MARK_C), ("outside-root-read", MARK_OUT), ("other-bucket-read", MARK_META.as_bytes()), ("foreign-upload-read", MARK_PART)] {
+                if op.reads_bucket_b() && (m == MARK_B || m == MARK_META.as_bytes()) {
+                    continue; // the copy source: reading it is the operation
+                }
                 if find(&read, m) {
                     a.fail(&format!("C17/{what}/{op:?}"), h.len() as u64, id(), format!("{op:?} addressed to bucket-a with {h:?} returned bytes of {}", String::from_utf8_lossy(m)), json!({"input": h}));
                 }
@@ -411,7 +458,7 @@ pub fn run(ctx: &Ctx) -> (Acc, Report) {
     let concurrent = if ctx.replay.as_deref().is_none_or(|r| r.contains("/schedule=")) { crate::props::c19::cross_object_schedules(&mut acc, "C17") } else { 0 };
     let rep = Report {
         level: "exploration",
-        rule: format!("{n_keys} hostile strings (all sequences of 1..3 segments (thorough: also all 4-segment sequences over the 7 core symbols) over {{a, ., .., empty, bucket-b, bucket-a2, secret, the real metadata file name of another bucket's object, %2e%2e, %2f, outside, sentinel.txt}} joined by '/', with and without a leading '/', plus 4 deep escapes) x 18 operations at the S3 trait (object get/head/put/delete/delete-objects/copy source/copy destination/list prefix/create-multipart/upload-part-copy source/put-then-get-then-delete; hostile upload ids for list-parts/complete/abort/upload-part by a foreign identity incl. the victim's real id and its 8-character prefix; hostile bucket names for create/delete/head bucket), and through S3Service::call for GET/PUT/DELETE/copy in literal, fully percent-encoded and %2e%2e spellings; store: three buckets with marked objects and metadata (one sibling's name has the addressed bucket's name as a proper string prefix), one foreign open upload with a marked part, a marked sentinel tree beside and above the root. Oracle: whole-tree snapshot diff + marker search in everything read back. Plus every interleaving of two concurrent writers to different objects (same key in two buckets, same file name in two directories, two keys of one bucket). Distinct by id."),
+        rule: format!("{n_keys} hostile strings (all sequences of 1..3 segments (thorough: also all 4-segment sequences over the 7 core symbols) over {{a, ., .., empty, bucket-b, bucket-a2, secret, the real metadata file name of another bucket's object, %2e%2e, %2f, outside, sentinel.txt}} joined by '/', with and without a leading '/', plus 4 deep escapes) x 22 operations at the S3 trait (object get/head/put/delete/delete-objects/copy source/copy destination/list prefix/create-multipart/upload-part-copy source/put-then-get-then-delete; legitimate cross-bucket copies - from another bucket's plain or metadata-bearing object to the string as destination key, and from the string as source key in the other bucket by CopyObject and UploadPartCopy - where the source bucket may be read but neither it nor its bookkeeping may change; hostile upload ids for list-parts/complete/abort/upload-part by a foreign identity incl. the victim's real id and its 8-character prefix; hostile bucket names for create/delete/head bucket), and through S3Service::call for GET/PUT/DELETE/copy in literal, fully percent-encoded and %2e%2e spellings; store: three buckets with marked objects and metadata (one sibling's name has the addressed bucket's name as a proper string prefix), one foreign open upload with a marked part, a marked sentinel tree beside and above the root. Oracle: whole-tree snapshot diff + marker search in everything read back. Plus every interleaving of two concurrent writers to different objects (same key in two buckets, same file name in two directories, two keys of one bucket). Distinct by id."),
         exhaustive: true,
         extra: json!({"hostile_strings": n_keys, "concurrent_writer_schedules": concurrent}),
         assumptions: vec!["symbolic links inside the root are not part of the space".into(), "file contents, not mtimes, are compared".into()],
